@@ -49,12 +49,35 @@ def lit_term(v) -> str:
     return f"(LStr {coq_str(v)})"
 
 
+def has_x(t: T) -> bool:
+    return any(n.kind in ("union", "lit") for n in t.walk())
+
+
 def xty_term(t: T) -> str:
+    if t.kind == "list" and has_x(t):
+        return f"(XList {xty_term(t.args[0])})"
+    if t.kind == "dict" and has_x(t.args[1]):
+        return f"(XDict {coq_sty(t.args[0])} {xty_term(t.args[1])})"
+    if t.kind == "opt" and has_x(t):
+        return f"(XOpt {xty_term(t.args[0])})"
     if t.kind == "union":
         return "(XUnion [" + "; ".join(coq_sty(a) for a in t.args) + "])"
     if t.kind == "lit":
         return "(XLit [" + "; ".join(lit_term(v) for v in t.extra) + "])"
     return f"(XT {coq_sty(t)})"
+
+
+def leaf_types(t: T) -> list:
+    """the grammar types a position hands to ErrsTy.ue: union members, dict keys, or the type itself"""
+    if not has_x(t):
+        return [t]
+    if t.kind == "union":
+        return list(t.args)
+    if t.kind == "lit":
+        return []
+    if t.kind == "dict":
+        return [t.args[0]] + leaf_types(t.args[1])
+    return [x for a in t.args for x in leaf_types(a)]
 
 
 def gen_union(sg, rng) -> T:
@@ -71,6 +94,23 @@ def gen_union(sg, rng) -> T:
         if len(ms) == 2:
             ms.append(T("leaf", name="date"))
     return T("union", ms)
+
+
+def wrap(rng, t: T) -> T:
+    """a union / Literal position, now and then inside List / Dict[str, .] / Optional (nested up to twice)"""
+    if t.kind == "lit" and None not in t.extra and rng.random() < 0.3:
+        t = T("opt", [t])
+    for _ in range(2):
+        c = rng.random()
+        if c < 0.22:
+            t = T("list", [t])
+        elif c < 0.34:
+            t = T("dict", [T("str"), t])
+        elif c < 0.42 and t.kind == "lit" and None not in t.extra:
+            t = T("opt", [t])
+        else:
+            break
+    return t
 
 
 def gen_lit(rng) -> T:
@@ -107,7 +147,7 @@ def make_cases(rng, n_schemas: int, per_schema: int):
         changed = 0
         for f in spec.fields:
             if (changed == 0 and f is spec.fields[-1]) or rng.random() < 0.45:
-                f.ty = gen_union(sg, rng) if rng.random() < 0.6 else gen_lit(rng)
+                f.ty = wrap(rng, gen_union(sg, rng) if rng.random() < 0.6 else gen_lit(rng))
                 f.final = False
                 if f.default is not gen.NODEFAULT:
                     f.default, f.default_src = None, "None"
@@ -133,8 +173,15 @@ def make_cases(rng, n_schemas: int, per_schema: int):
                     c = rng.random()
                     if c < 0.15:
                         d2.pop(key, None)
-                    elif f.ty.kind in ("union", "lit") or c < 0.6:
-                        d2[key] = copy.deepcopy(rng.choice(JUNK))
+                    elif has_x(f.ty) and f.ty.kind in ("list", "dict") and c < 0.7 and isinstance(d2.get(key), (list, dict)) and d2.get(key):
+                        # one element of the container replaced by junk: the culprit is that element
+                        cont = d2[key]
+                        if isinstance(cont, list):
+                            cont[rng.randrange(len(cont))] = copy.deepcopy(rng.choice(JUNK))
+                        else:
+                            cont[rng.choice(list(cont))] = copy.deepcopy(rng.choice(JUNK))
+                    elif has_x(f.ty) or c < 0.6:
+                        d2[key] = copy.deepcopy(rng.choice(JUNK + [[1, "zz", None], {"k": "zz"}, ["a", 1]]))
                     else:
                         d2[key] = tycorr.corrupt(d2.get(key), rng)
                 inputs.append(d2)
@@ -146,13 +193,14 @@ def make_cases(rng, n_schemas: int, per_schema: int):
                                   entry="from_dict" if nailed else "BasicDecoder.decode"))
         # codec roots of the same union / literal types
         for f in spec.fields:
-            if f.ty.kind in ("union", "lit"):
+            if has_x(f.ty):
                 try:
                     rdec = BasicDecoder(gen.resolve(f.ty, ns)).decode
                 except Exception:  # noqa: BLE001
                     continue
                 for _ in range(4):
-                    cases.append(dict(kind="root", fam=fam, t=f.ty, ns=ns, fn=rdec, input=copy.deepcopy(rng.choice(JUNK)),
+                    cases.append(dict(kind="root", fam=fam, t=f.ty, ns=ns, fn=rdec,
+                                      input=copy.deepcopy(rng.choice(JUNK + [[1, "zz", None], {"k": "zz"}, ["a", 1], [[1]], {"k": [1, "b"]}])),
                                       entry="BasicDecoder.decode"))
     return cases
 
@@ -209,19 +257,19 @@ def emit(cases, shard=120):
                 envs[id(fam)] = f"E_{len(envs)}"
                 # the class table holds the classes that are fully inside the grammar (everything but the root)
                 names = [x.name for x in fam.classes if x.kind in ("data", "nt", "td") and
-                         all(f.ty.kind not in ("union", "lit") for f in x.fields)]
+                         all(not has_x(f.ty) for f in x.fields)]
                 defs.append(f"Definition {envs[id(fam)]} : senv := {coq_senv(fam, names)}.")
                 defs.append(f"Definition CF_{envs[id(fam)]} : string -> tcfg := {cf_term(fam)}.")
             en = envs[id(fam)]
             # oracle tables: every member / field type the case can reach
             if c["kind"] == "class":
                 for f in c["spec"].fields:
-                    for tt in (f.ty.args if f.ty.kind == "union" else ([] if f.ty.kind == "lit" else [f.ty])):
+                    for tt in leaf_types(f.ty):
                         tb.add_input(c["input"], tt, fam, c["ns"])
                 lines.append(f"XC {en} CF_{en} {'true' if c['nailed'] else 'false'} {xcls_term(c['spec'])} "
                              f"{coq_pv(c['input'])} {c['term']} {c['cx']}")
             else:
-                for tt in (c["t"].args if c["t"].kind == "union" else []):
+                for tt in leaf_types(c["t"]):
                     tb.add_input(c["input"], tt, fam, c["ns"])
                 lines.append(f"XR {en} CF_{en} {xty_term(c['t'])} {coq_pv(c['input'])} {c['term']}")
         txt = HEADER + tb.coq() + "\n" + "\n".join(defs) + "\n" + OK_FUN
@@ -232,7 +280,11 @@ def emit(cases, shard=120):
 
 
 def run(ctx: vlib.Ctx, n_schemas: int, per_schema: int):
-    cases = make_cases(ctx.rng, n_schemas, per_schema)
+    from harness.props import c05_emit
+    with c05_emit.UnionSources() as us:
+        cases = make_cases(ctx.rng, n_schemas, per_schema)
+    # kernel K19: the union methods the generator produced here vs the translated emission loop (ErrsEmit.v)
+    c05_emit.run(ctx, us.sources, cases)
     for c in cases:
         c["term"], exc, r, c["cx"], d_after = observe(c)
         ctx.count(("xtyped", c["kind"], c["entry"], type(exc).__name__ if exc else "ok"))
@@ -252,8 +304,29 @@ def run(ctx: vlib.Ctx, n_schemas: int, per_schema: int):
                         not (c["input"][key] is None and f.default is None):
                     problems.append(f"field {f.name}: Literal accepted {c['input'][key]!r}, none of {f.ty.extra!r} "
                                     f"(instance holds {getattr(r, f.name, None)!r})")
-        allowed = ("ValueError", "MissingField", "InvalidFieldValue", "ExtraKeysError") if c["kind"] == "class" else ("ValueError",)
-        if exc is not None and type(exc).__name__ not in allowed:
+        # the union's own InvalidFieldValue (the __context__ of the field's) must carry the offending object itself:
+        # the field value or one of the items inside it
+        def occurs(obj, cont, depth=0):
+            if obj is cont:
+                return True
+            if depth > 6:
+                return False
+            if isinstance(cont, dict):
+                return any(occurs(obj, x, depth + 1) for x in cont.values()) or any(obj is k for k in cont)
+            if isinstance(cont, (list, tuple)):
+                return any(occurs(obj, x, depth + 1) for x in cont)
+            return isinstance(cont, str) and isinstance(obj, str) and len(obj) == 1 and obj in cont
+        if c["kind"] == "class" and c["nailed"] and exc is not None and type(exc).__name__ == "InvalidFieldValue":
+            inner = exc.__context__
+            fld = next((f for f in c["spec"].fields if f.name == exc.field_name), None)
+            if fld is not None and has_x(fld.ty) and type(inner).__name__ == "InvalidFieldValue" and \
+                    inner.field_name == exc.field_name and not occurs(inner.field_value, exc.field_value):
+                problems.append(f"field {fld.name}: the union's InvalidFieldValue carries {inner.field_value!r}, which is not "
+                                f"the offending value nor an item of {exc.field_value!r}")
+        # the exception whitelist is about dataclass roots; a container / union codec root raises what its
+        # unpacker raises (compared with the model, not judged here)
+        allowed = ("ValueError", "MissingField", "InvalidFieldValue", "ExtraKeysError")
+        if c["kind"] == "class" and exc is not None and type(exc).__name__ not in allowed:
             problems.append(f"undocumented {type(exc).__name__} escapes: {exc}")
         for what in problems:
             ctx.fail(f"{gen.py_ann(c['t'])} via {c['entry']} <- {c['input']!r}: {what}"[:600],
@@ -262,13 +335,13 @@ def run(ctx: vlib.Ctx, n_schemas: int, per_schema: int):
                       "type_expr": gen.py_ann(c["t"]), "input_expr": gen.py_src(c["input"]), "observed": what[:300],
                       "outcome": (type(exc).__name__ if exc is not None else gen.py_src(r))[:400],
                       "expected": "documented exception / unmodified input"},
-                     {"kind": "xtyped-" + ("input-modified" if "modified" in what else ("literal" if "Literal" in what else "undocumented")),
+                     {"kind": "xtyped-" + ("input-modified" if "modified" in what else ("literal" if "Literal" in what else ("union-culprit" if "union's InvalidFieldValue" in what else "undocumented"))),
                       "root": c["kind"]})
     br = vlib.coq_make(["theories/ErrsX.vo", "theories/CaseLib.vo", "theories/Wire.vo"])
     if not br.ok:
         return cases, None, "model does not build: " + (br.error or "")
     files = emit(cases)
-    res = vlib.coq_eval_many([(f"c05_xtyped_{i}", txt) for i, txt in enumerate(files)], timeout=900, jobs=6)
+    res = CT.eval_robust([(f"c05_xtyped_{i}", txt) for i, txt in enumerate(files)], timeout=900, jobs=6)
     bad, shard = [], 120
     for n, (ok, out) in enumerate(res):
         if not ok:
